@@ -125,6 +125,9 @@ func runC14(c *Ctx) {
 	c14OrderedLists(c)
 	rulePureCapture(c, "pure-capture")
 	c01PayloadImmutability(c)
+	ruleTokenSplitting(c, "decoder-errors", "parseViaParam", "ParseCSeq", "parseRequestLine", "parseStatusLine")
+	ruleSplitRemainder(c, "decoder-errors")
+	rulePurePrinters(c, "no-defaulting-printer")
 }
 
 // transformers that change the text they are given
